@@ -278,18 +278,28 @@ class Stats:
 def explore(ctx, key, state, hist, depth, st, qrate, rng):
     """ctx.obj realises `state`. Check it, query it, then try every action."""
     st.nodes += 1
-    bad = cc.check_object(TABS, ctx.obj, ctx.cls, ctx.dim, state["shape"], state["pc"], tol=ctx.tol)
+    try:
+        bad = cc.check_object(TABS, ctx.obj, ctx.cls, ctx.dim, state["shape"], state["pc"], tol=ctx.tol)
+    except core.MachineryFailure:
+        raise
+    except Exception as e:
+        bad = ("projection.raised", "%s: %s" % (type(e).__name__, e))
     if bad:
         if len(st.viol) < 10:
             st.viol.append((list(hist), bad))
         return
     if not ctx.complex and (qrate >= 1.0 or rng.random() < qrate):
-        n, bad = battery(ctx, state)
-        st.queries += n
-        if not bad:
-            bad = cc.check_object(TABS, ctx.obj, ctx.cls, ctx.dim, state["shape"], state["pc"], tol=ctx.tol)
-            if bad:
-                bad = ("after_queries:" + bad[0], bad[1])
+        try:
+            n, bad = battery(ctx, state)
+            st.queries += n
+            if not bad:
+                bad = cc.check_object(TABS, ctx.obj, ctx.cls, ctx.dim, state["shape"], state["pc"], tol=ctx.tol)
+                if bad:
+                    bad = ("after_queries:" + bad[0], bad[1])
+        except core.MachineryFailure:
+            raise
+        except Exception as e:
+            bad = ("query.raised", "%s: %s" % (type(e).__name__, e))
         if bad:
             if len(st.viol) < 10:
                 st.viol.append((list(hist) + ["<queries>"], bad))
